@@ -143,3 +143,128 @@ func multiEntryMaps(v *Val) bool {
 	}
 	return false
 }
+
+// ---- merge rules (C10), written from the property text: the expected content of
+// a target that held `prior` after Unmarshal of Marshal(v) -------------------------
+
+// protoRepeated: the slice/map at this position is written in the repeated form
+func protoRepeated(t *TyDef, opt string, protoArrays bool) bool {
+	u := t.under()
+	if u.K == "slice" && !u.isBytes() {
+		e := refEnc{protoArrays: protoArrays}
+		return e.wt(u.Elem, "") == 2 && (protoArrays || opt == "proto")
+	}
+	return false
+}
+
+// mergeTop: top level. Data that encodes to nothing leaves structs and maps
+// untouched and resets everything else to its zero value.
+func mergeTop(t *TyDef, prior, v *Val, protoArrays bool) *Val {
+	if omitted(t, v) {
+		k := t.under().K
+		if k == "struct" || k == "map" {
+			return prior
+		}
+		return zeroVal(t)
+	}
+	return mergeIn(t, prior, v, "", protoArrays)
+}
+
+// mergeField: a struct field: absent from the data → prior kept.
+func mergeField(t *TyDef, prior, v *Val, opt string, protoArrays bool) *Val {
+	if omitted(t, v) {
+		return prior
+	}
+	if opt == "proto" && v.K == "m" && len(v.M) == 0 {
+		return prior // an empty proto map writes nothing
+	}
+	return mergeIn(t, prior, v, opt, protoArrays)
+}
+
+// mergeIn: the value is present in the data.
+func mergeIn(t *TyDef, prior, v *Val, opt string, protoArrays bool) *Val {
+	switch t.K {
+	case "named":
+		if t.Elem.K == "time" {
+			return v
+		}
+		return mergeIn(t.Elem, prior, v, opt, protoArrays)
+	case "ext":
+		if v.P == nil {
+			return prior
+		}
+		return &Val{K: "p", P: normIn(extPayload[t.Name], v.P)}
+	case "ptr":
+		if v.P == nil {
+			return prior
+		}
+		target := zeroVal(t.Elem)
+		if prior != nil && prior.K == "p" && prior.P != nil {
+			target = prior.P
+		}
+		return &Val{K: "p", P: mergeIn(t.Elem, target, v.P, opt, protoArrays)}
+	case "slice":
+		if t.isBytes() {
+			return v
+		}
+		nv := normIn(t, v)
+		if protoRepeated(t, opt, protoArrays) {
+			out := &Val{K: "l"}
+			if prior != nil {
+				out.L = append(out.L, prior.L...)
+			}
+			out.L = append(out.L, nv.L...)
+			return out
+		}
+		return nv
+	case "map":
+		out := &Val{K: "m"}
+		if prior != nil && prior.K == "m" {
+			out.M = append(out.M, prior.M...)
+		}
+		for _, e := range v.M {
+			k := normPos(t.Key, e[0], false)
+			var existing *Val
+			pos := -1
+			for i, pe := range out.M {
+				if pe[0].String() == k.String() {
+					existing, pos = pe[1], i
+				}
+			}
+			var nv *Val
+			if omitted(t.Elem, e[1]) {
+				nv = zeroVal(t.Elem) // an absent value is stored as the zero value
+			} else {
+				if existing == nil {
+					existing = zeroVal(t.Elem)
+				}
+				nv = mergeIn(t.Elem, existing, e[1], "", protoArrays)
+			}
+			if pos >= 0 {
+				out.M[pos] = [2]*Val{out.M[pos][0], nv}
+			} else {
+				out.M = append(out.M, [2]*Val{k, nv})
+			}
+		}
+		return out
+	case "struct":
+		out := &Val{K: "r"}
+		j := 0
+		for _, f := range t.Fields {
+			if !fieldEncoded(f) {
+				continue
+			}
+			_, fopt := splitTag(f.Plenc)
+			var pf *Val
+			if prior != nil && prior.K == "r" && j < len(prior.L) {
+				pf = prior.L[j]
+			} else {
+				pf = zeroVal(f.T)
+			}
+			out.L = append(out.L, mergeField(f.T, pf, v.L[j], fopt, protoArrays))
+			j++
+		}
+		return out
+	}
+	return normIn(t, v)
+}
